@@ -1595,10 +1595,14 @@ func min(x, y value) value {
 	}
 
 	// return (y < x) ? y : x
-	if binop(token.LSS, nil, y, x).(bool) {
-		return y
+	c := binop(token.LSS, nil, y, x)
+	if b, ok := c.(bool); ok {
+		if b {
+			return y
+		}
+		return x
 	}
-	return x
+	return itev(c, y, x) // symbolic operands: no fork
 }
 
 func max(x, y value) value {
@@ -1610,10 +1614,14 @@ func max(x, y value) value {
 	}
 
 	// return (y > x) ? y : x
-	if binop(token.GTR, nil, y, x).(bool) {
-		return y
+	c := binop(token.GTR, nil, y, x)
+	if b, ok := c.(bool); ok {
+		if b {
+			return y
+		}
+		return x
 	}
-	return x
+	return itev(c, y, x) // symbolic operands: no fork
 }
 
 // copied from $GOROOT/src/runtime/minmax.go
